@@ -99,6 +99,9 @@ impl Oracle {
         if threads == 1 || threads2 == 1 {
             ctx.stats.probe("pool_of_one");
         }
+        if msgs.len() >= 256 {
+            ctx.stats.probe("batches_of_256_or_more_reports");
+        }
         let below = w.groups.len() - ideal.len();
         if !ideal.is_empty() && below > 0 {
             ctx.stats.nontrivial = true;
@@ -128,7 +131,7 @@ impl Property for C18 {
         "A (STAR reporting) with star_test_utils::AggregationServer as aggregator on a rayon pool"
     }
     fn rule(&self) -> &'static str {
-        "one run = a world-A history with one epoch (UTF-8) and one threshold for all groups, group sizes around the threshold, transport drop/reorder/delay (no duplication: the property ranges over multisets of reports by distinct clients); at drawn moments and at quiescence the delivered reports, in arrival order, go to retrieve_outputs inside a rayon pool of drawn size 1..16; the canonically sorted output must equal the ideal functionality over the delivered reports (each measurement with >= t delivered reports exactly once with exactly the multiset of aux, empty == absent; nothing else) and must be the same under a second drawn permutation and pool size. rayon's internal scheduling is not under simulator control (tasks share no state; output canonicalised). non-trivial = one group revealed and one withheld in the same run; states = (t, revealed, withheld) cells"
+        "one run = a world-A history with one epoch (UTF-8) and one threshold for all groups, group sizes around the threshold (every 6th run a large batch of several hundred reports in up to 60 groups), transport drop/reorder/delay (no duplication: the property ranges over multisets of reports by distinct clients); at drawn moments and at quiescence the delivered reports, in arrival order, go to retrieve_outputs inside a rayon pool of drawn size 1..16; the canonically sorted output must equal the ideal functionality over the delivered reports (each measurement with >= t delivered reports exactly once with exactly the multiset of aux, empty == absent; nothing else) and must be the same under a second drawn permutation and pool size. rayon's internal scheduling is not under simulator control (tasks share no state; output canonicalised). non-trivial = one group revealed and one withheld in the same run; states = (t, revealed, withheld) cells"
     }
     fn runs(&self, thorough: bool) -> u64 {
         if thorough { 40_000 } else { 800 }
@@ -141,6 +144,16 @@ impl Property for C18 {
         gen.thresholds = vec![1, 2, 2, 3, 3, 5, 8, 20];
         gen.max_groups = if ctx.thorough { 12 } else { 6 };
         gen.max_clients_total = 90;
+        // every 6th run is a LARGE batch (hundreds of reports, many groups): size-dependent code paths
+        let large = ctx.ch.chance(1, 6);
+        if large {
+            gen.max_groups = 60;
+            gen.min_groups = 35;
+            gen.max_clients_total = if ctx.thorough { 1200 } else { 520 };
+            gen.thresholds = vec![2, 3, 5, 8, 13];
+            gen.aux_kinds = vec![-1, 0, 1, 4, 20];
+            gen.meas_lens = vec![1, 5, 11, 32];
+        }
         gen.count_offsets = vec![-2, -1, -1, 0, 0, 1, 3];
         gen.aux_kinds = vec![-1, -1, 0, 1, 4, 4, 20, 300];
         gen.meas_lens = vec![0, 1, 5, 11, 32, 32, 200];
@@ -162,6 +175,6 @@ impl Property for C18 {
         vec!["duplicated deliveries are excluded (a sub-threshold bucket padded with copies makes the reference server panic on PossibleShareCollision: C02's subject, observed and documented)", "empty aux is compared as absent aux (the reference server maps empty to None by construction)", "HashMap order and rayon scheduling are uncontrolled; neutralised by canonical ordering and covered by the determinism self-test"]
     }
     fn key_probes(&self) -> Vec<&'static str> {
-        vec!["server_runs_checked", "groups_revealed", "two_pool_sizes_compared", "pool_of_one"]
+        vec!["server_runs_checked", "groups_revealed", "two_pool_sizes_compared", "pool_of_one", "batches_of_256_or_more_reports"]
     }
 }
